@@ -44,8 +44,20 @@ func vhValidate3V() {
 	subj := make(pkix.RDNSequence, s)
 	for i := 0; i < s; i++ {
 		sarc[i] = vInt(vName("sattr", i), 3, 9)
+		// the statement speaks about attribute types only: the value is a
+		// string, an empty string, or the bytes of a value written in the
+		// #hex form (ParseRDNSequence stores those as []byte)
+		var val any = "v"
+		if i < 3 { // (the kinds of the first three values; keeps the thorough tier finite)
+			switch vChoose(vName("sval", i), 3) {
+			case 1:
+				val = ""
+			case 2:
+				val = []byte{0x0c, 0x01, 'v'}
+			}
+		}
 		subj[s-1-i] = pkix.RelativeDistinguishedNameSET{pkix.AttributeTypeAndValue{
-			Type: asn1.ObjectIdentifier{2, 5, 4, sarc[i]}, Value: "v"}}
+			Type: asn1.ObjectIdentifier{2, 5, 4, sarc[i]}, Value: val}}
 	}
 	// the statement is only unambiguous for lists without repeated types
 	for a := 0; a < p; a++ {
